@@ -9,9 +9,9 @@ LEVEL = 'exploration'
 TIERS = {'quick': 5000, 'thorough': 200000}
 RULE = ('seeded list/stat calls: listings of 0..300 entries, names 1..255 arbitrary bytes (incl. trailing space/NUL/newline), mode/size/mtime over the '
         'whole 32-bit range biased to 0, 2^31, 2^32-1, DENT headers and names split across WRTEs by the cut policies, all read fragmentations, stat '
-        'replies likewise (existing, missing and overridden paths). non-trivial = a DENT/STAT record was split across WRTEs; distinct = event-log digests')
+        'replies likewise (existing, missing and overridden paths); in 15% of the cases one payload is damaged on the wire or one read times out while the device stays healthy (the call may fail, never return a shortened listing). non-trivial = a DENT/STAT record was split across WRTEs; distinct = event-log digests')
 ASSUMPTIONS = ['adbd answers STAT for a missing path with zeros and LIST of a missing directory with DONE only']
-EXPECT_PROBES = {'all': ['sync_header_split_across_wrte', 'c09_big_listing', 'c09_high_bit_field']}
+EXPECT_PROBES = {'all': ['sync_header_split_across_wrte', 'c09_big_listing', 'c09_high_bit_field', 'c09_fault_failed_list_or_stat']}
 OWN = ('wrong-result', 'unexpected-exception', 'timeout-instead-of-result', 'missing-exception', 'wrong-exception', 'hang', 'no-termination', 'not-closed', 'unacked-write')
 
 
@@ -41,6 +41,14 @@ def generate(seed, tier):
             plan['policy'] = 'straddle'
     cfg = S.gen_config(g, total)
     scn = {'api': g.pick(['sync', 'async']), 'transport': 'mem', 'device': d, 'config': cfg, 'actors': [[S.timeouts(g, {'op': 'connect'})] + ops], 'object': {'banner': 'simhost'}}
+    if g.chance(0.15):
+        # one thing goes wrong part-way (a payload damaged on the wire, or a single read that times out) while the device stays
+        # healthy and answers the CLOSE: the call may fail, it must never hand back a shortened listing or a made-up triple
+        if g.chance(0.5):
+            d['corrupt'] = {'at': g.int(2, 30), 'kind': g.pick(['byte', 'bit']), 'off': g.int(0, 1 << 20), 'bitno': g.int(0, 7), 'delta': g.int(0, 253)}
+        else:
+            cfg['faults'] = [{'at': g.int(6, 120), 'kind': 'timeout'}]
+        cfg['stop_on_error'] = True
     return {'seed': seed, 'scn': scn}
 
 
@@ -49,9 +57,15 @@ def evaluate(case, tapes=None):
     scn = case['scn']
     run, tape = run_scn(case, 'scn', 0, tapes)
     absorb(out, run, tape)
-    probs = O.check_session(run, scn) + termination(run)
     dev = run.device
     pr = out['probes']
+    if run.link.faults_fired or run.probes.get('corrupt_payload'):
+        pr['c09_fault_mid_session'] = 1
+        if any(not r['ok'] and r['op'] in ('list', 'stat') for r in run.results[0]):
+            pr['c09_fault_failed_list_or_stat'] = 1
+        probs = [p for p in O.check_session(run, scn, relaxed_from=0) if p[0] == 'wrong-result'] + termination(run)
+    else:
+        probs = O.check_session(run, scn) + termination(run)
     for i, rec in enumerate(run.results[0]):
         if rec['op'] not in ('list', 'stat') or not rec['ok']:
             continue
